@@ -56,12 +56,12 @@ def _one_impl(sc, idx: int, seed: int, with_ref: bool):
     names = list(R.JWE_ALGS + R.JWE_1PU) + list(R.ENC) + ["DEF"]
     reg = jwe.JWERegistry(algorithms=names)
     spread = sc["place"] == "spread"
-    prot = {"enc": enc, "cty": "t/x"}
+    prot = {"enc": enc, "cty": "t/x \u00e9\u4e2d"}
     unprot, rhdrs = {}, [{} for _ in algs]
     if sc["zip"]:
         prot["zip"] = "DEF"
     if spread:
-        unprot = {"typ": "verif"}
+        unprot = {"typ": "verif \u00fc"}
         for j, a in enumerate(algs):
             rhdrs[j] = {"alg": a, "kid": "rcp-%d" % j}
     else:
@@ -101,8 +101,12 @@ def _one_impl(sc, idx: int, seed: int, with_ref: bool):
     kw = {"sender_key": spub} if spub else {}
     reg_any = jwe.JWERegistry(algorithms=names, verify_all_recipients=False)
     runs = []
+    ktys = {rj["kty"] for rj, _ in recs}
     for j, (rj, _) in enumerate(recs):
-        runs.append((f"recipient{j}", J.jkey(rj), reg if len(recs) == 1 else reg_any))
+        # a single key can only be offered to every recipient entry when all entries take that kind of key; with mixed
+        # key types the decryptor must hold a key set (below) - offering an RSA key to an ECDH entry is a caller error
+        if len(recs) == 1 or len(ktys) == 1:
+            runs.append((f"recipient{j}", J.jkey(rj), reg if len(recs) == 1 else reg_any))
     if spread and len(recs) > 1:
         ks = KeySet.import_key_set({"keys": [{**rj, "kid": "rcp-%d" % j} for j, (rj, _) in enumerate(recs)]})
         runs.append(("keyset", ks, reg))
